@@ -5,6 +5,7 @@
 -/
 import J1939.Lemmas.Seg21
 import J1939.Lemmas.Trace21
+import J1939.Props.C11
 namespace J1939.Props.C03
 open J1939 J1939.Gen J1939.Dll21 J1939.Lemmas J1939.Bits
 
@@ -82,5 +83,127 @@ theorem c03_responder_decodes (data : List Nat) (hlen : 0 < data.length) (mid : 
     200 ms, the hold time re-armed by a hold CTS is 0.5 s -/
 theorem c03_timing_envelope :
     150000 < Const.T21.T3 ∧ 200000 < Const.T21.T2 ∧ 200000 < Const.T21.T1 ∧ 500000 ≤ Const.T21.Th := by decide
+
+/-! ## J1939-22 (FD) wire format -/
+
+theorem nib (a b : Nat) : ((a &&& 15) ||| ((b &&& 15) <<< 4)) = a % 16 + (b % 16) * 16 := by
+  rw [and_15, and_15, shl_4, Nat.or_comm]
+  have := mul_or (b % 16) (a % 16) 4 (by simp only [Nat.reducePow]; omega)
+  simp only [Nat.reducePow] at this
+  rw [this]; omega
+
+/-- J1939-22: data bytes of EVERY FD.TP.CM frame the stack builds = the reference layout; always 12 bytes, FD frame -/
+theorem c03_22_cm_data (sa da ctl sess size seg b7 b8 pgn prio : Nat) :
+    (Tp22.cm sa da ctl sess size seg b7 b8 pgn prio).data = Ref.fdCm ctl sess size seg b7 b8 pgn ∧
+    (Tp22.cm sa da ctl sess size seg b7 b8 pgn prio).fd = true := by
+  refine ⟨?_, rfl⟩
+  simp only [Tp22.cm, Py.set, List.replicate, List.set_cons_zero, List.set_cons_succ, Ref.fdCm, Ref.le24, nib, and_255, shr_8, shr_16,
+    List.cons_append, List.nil_append]
+/-- identifiers: priority, PF 0x4D (FD.TP.CM) / 0x4E (FD.TP.DT), destination in PS, source address -/
+theorem c03_22_ids (sa da prio : Nat) (hs : sa < 256) (hd : da < 256) (hp : prio < 8)
+    (ctl sess size seg b7 b8 pgn dtfi : Nat) (lut d : List Nat) :
+    (Tp22.cm sa da ctl sess size seg b7 b8 pgn prio).id = Ref.fdCmId prio da sa ∧
+    (Tp22.dt lut sa da sess seg d dtfi).id = Ref.fdDtId da sa := by
+  have e1 : (Tp22.cm sa da ctl sess size seg b7 b8 pgn prio).id =
+      MessageId.can_id (MessageId.ofFields prio (PGN.value (PGN.ofFields 0 77 da)) sa) := rfl
+  have e2 : (Tp22.dt lut sa da sess seg d dtfi).id =
+      MessageId.can_id (MessageId.ofFields 7 (PGN.value (PGN.ofFields 0 78 da)) sa) := by
+    unfold Tp22.dt; rfl
+  rw [e1, e2, Dll21.pdu1_id, Dll21.pdu1_id]
+  simp only [Ref.fdCmId, Ref.fdDtId, Ref.canId, Nat.reducePow]
+  refine ⟨?_, ?_⟩ <;> omega
+
+/-- the seven named builders are the reference frame with their control code and field placement: RTS 0 (limit, ADT),
+    CTS 1 (size field all ones, next segment in the segment field, grant in byte 8), EndOfMsgStatus 2, EndOfMsgACK 3,
+    BAM 4 (to 255), Abort 15 (all ones, reason in byte 9) -/
+theorem c03_22_builders (sa da prio sess pgn size seg mx adt n nxt reason asz : Nat) :
+    (Tp22.rts prio sa da sess pgn size seg mx adt).data = Ref.fdCm 0 sess size seg mx adt pgn ∧
+    (Tp22.cts sa da sess n nxt pgn).data = Ref.fdCm 1 sess 16777215 nxt n 0 pgn ∧
+    (Tp22.eom_status sa da sess size seg pgn asz adt).data = Ref.fdCm 2 sess size seg asz adt pgn ∧
+    (Tp22.eom_ack sa da sess size seg pgn).data = Ref.fdCm 3 sess size seg 255 255 pgn ∧
+    (Tp22.bam prio sa sess pgn size seg).data = Ref.fdCm 4 sess size seg 255 0 pgn ∧
+    (Tp22.abort sa da sess reason pgn).data = Ref.fdCm 15 sess 16777215 16777215 16777215 reason pgn :=
+  ⟨(c03_22_cm_data ..).1, (c03_22_cm_data ..).1, (c03_22_cm_data ..).1, (c03_22_cm_data ..).1, (c03_22_cm_data ..).1,
+   (c03_22_cm_data ..).1⟩
+
+theorem le24_decode (v : Nat) (h : v < 16777216) :
+    (((v % 256) &&& 255) ||| (((v / 256 % 256) &&& 255) <<< 8)) ||| (((v / 65536 % 256) &&& 255) <<< 16) = v := by
+  simp only [and_255, shl_8, shl_16, Nat.mod_mod]
+  have o1 : v % 256 ||| v / 256 % 256 * 256 = v / 256 % 256 * 256 + v % 256 := by
+    rw [Nat.or_comm]; have := mul_or (v / 256 % 256) (v % 256) 8 (by simp only [Nat.reducePow]; omega); simpa using this
+  have o2 : (v / 256 % 256 * 256 + v % 256) ||| v / 65536 % 256 * 65536 = v / 65536 % 256 * 65536 + (v / 256 % 256 * 256 + v % 256) := by
+    rw [Nat.or_comm]; have := mul_or (v / 65536 % 256) (v / 256 % 256 * 256 + v % 256) 16 (by simp only [Nat.reducePow]; omega); simpa using this
+  rw [o1, o2]; omega
+
+/-- DECODING what a conforming peer sends: the field extraction of the receive path inverts the reference layout -/
+theorem c03_22_decode_cm (ctl sess size seg b7 b8 pgn : Nat) (hc : ctl < 16) (hs : sess < 16) (hz : size < 16777216)
+    (hg : seg < 16777216) (h7 : b7 < 256) (hp : pgn < 16777216) :
+    let d := Ref.fdCm ctl sess size seg b7 b8 pgn
+    Tp22.cm_control d = ctl ∧ Tp22.cm_session d = sess ∧ Tp22.cm_size d = size ∧ Tp22.cm_segment d = seg ∧
+    Tp22.cm_byte7 d = b7 ∧ Tp22.cm_pgn d = pgn ∧ d.length = 12 := by
+  simp only [Ref.fdCm, Ref.le24, Tp22.cm_control, Tp22.cm_session, Tp22.cm_size, Tp22.cm_segment, Tp22.cm_byte7, Tp22.cm_pgn, Py.idx,
+    List.cons_append, List.nil_append, List.getD_cons_zero, List.getD_cons_succ]
+  refine ⟨?_, ?_, le24_decode size hz, le24_decode seg hg, by omega, le24_decode pgn hp, rfl⟩
+  · rw [and_15]; omega
+  · rw [shr_4, and_15]; omega
+/-- the reflected length table gives the SMALLEST legal CAN FD length that fits -/
+theorem lut_minimal : ∀ n < 65, ∀ m < 65, J1939.Props.C11.legalFd m = true → n ≤ m → Py.idx Const.LUT_FD_DLC n ≤ m := by
+  decide +kernel
+
+theorem legal_le_64 (m : Nat) (h : J1939.Props.C11.legalFd m = true) : m ≤ 64 := by
+  simp [J1939.Props.C11.legalFd] at h; omega
+
+/-- FD.TP.DT: header (format indicator | session, 24-bit segment number), the segment's bytes, 0xFF padding up to the
+    smallest legal CAN FD length; an FD frame of at most 64 bytes -/
+theorem c03_22_dt_layout (sa da sess seg dtfi : Nat) (data : List Nat) (hl : data.length ≤ 60) :
+    let f := Tp22.dt Const.LUT_FD_DLC sa da sess seg data dtfi
+    (∃ k, f.data = Ref.fdDtHeader dtfi sess seg ++ data ++ List.replicate k 255) ∧
+    J1939.Props.C11.legalFd f.data.length = true ∧ 4 + data.length ≤ f.data.length ∧
+    (∀ m, J1939.Props.C11.legalFd m = true → 4 + data.length ≤ m → f.data.length ≤ m) ∧ f.fd = true := by
+  intro f
+  have hbody : ∀ (d : List Nat) (a b c e : Nat),
+      Py.insert (Py.insert (Py.insert (Py.insert d 0 a) 1 b) 2 c) 3 e = [a, b, c, e] ++ d := by
+    intro d a b c e; simp [Py.insert]
+  have hf : f.data = (if (4 + data.length ≥ 64) then (Ref.fdDtHeader dtfi sess seg ++ data).take 64
+      else Py.pad (Ref.fdDtHeader dtfi sess seg ++ data) (Py.idx Const.LUT_FD_DLC (4 + data.length)) 255) := by
+    have hl4 : ∀ a b c e : Nat, ((a :: b :: c :: e :: data).length) = 4 + data.length := by
+      intro a b c e; simp only [List.length_cons]; omega
+    simp only [f, Tp22.dt, hbody, nib, and_255, shr_8, shr_16, Ref.fdDtHeader, Ref.le24, List.cons_append, List.nil_append, hl4]
+    by_cases h : 4 + data.length ≥ 64
+    · have h' : decide (4 + data.length ≥ 60 + 4) = true := by simpa using h
+      have e60 : (60 : Nat) + 4 = 64 := rfl
+      simp only [if_true, h, decide_true, e60]
+    · have h' : decide (4 + data.length ≥ 60 + 4) = false := by simpa using h
+      have h0 : ¬ Py.idx Const.LUT_FD_DLC (4 + data.length) < 0 := by omega
+      simp only [Bool.false_eq_true, if_false, h, h0, decide_false]
+  have hlen : (Ref.fdDtHeader dtfi sess seg ++ data).length = 4 + data.length := by
+    simp [Ref.fdDtHeader, Ref.le24]; omega
+  obtain ⟨_, hlut⟩ := J1939.Props.C11.c11_lut
+  by_cases h64 : 4 + data.length ≥ 64
+  · have hd : data.length = 60 := by omega
+    have hfd : f.data = Ref.fdDtHeader dtfi sess seg ++ data := by
+      rw [hf]; simp only [h64, if_true]; exact List.take_of_length_le (by omega)
+    refine ⟨⟨0, by simp [hfd]⟩, by rw [hfd, hlen, hd]; decide, by rw [hfd, hlen]; omega, ?_, rfl⟩
+    intro m _ hm; rw [hfd, hlen]; exact hm
+  · obtain ⟨l1, l2, l3⟩ := hlut (4 + data.length) (by omega)
+    have hfd : f.data = Ref.fdDtHeader dtfi sess seg ++ data ++
+        List.replicate (Py.idx Const.LUT_FD_DLC (4 + data.length) - (4 + data.length)) 255 := by
+      rw [hf]; simp only [h64, if_false, Py.pad, hlen]
+    have hfl : f.data.length = Py.idx Const.LUT_FD_DLC (4 + data.length) := by
+      rw [hfd]; simp only [List.length_append, hlen, List.length_replicate]; omega
+    refine ⟨⟨_, hfd⟩, by rw [hfl]; exact l3, by rw [hfl]; exact l1, ?_, rfl⟩
+    intro m hm1 hm2
+    rw [hfl]
+    have := legal_le_64 m hm1
+    exact lut_minimal (4 + data.length) (by omega) m (by omega) hm1 hm2
+
+/-- … and the receive path reads session and segment number back from that header -/
+theorem c03_22_decode_dt (dtfi sess seg : Nat) (rest : List Nat) (hs : sess < 16) (hd : dtfi < 16) (hg : seg < 16777216) :
+    Tp22.dt_session (Ref.fdDtHeader dtfi sess seg ++ rest) = sess ∧ Tp22.dt_segment (Ref.fdDtHeader dtfi sess seg ++ rest) = seg := by
+  simp only [Ref.fdDtHeader, Ref.le24, Tp22.dt_session, Tp22.dt_segment, Py.idx, List.cons_append, List.nil_append,
+    List.getD_cons_zero, List.getD_cons_succ]
+  refine ⟨?_, le24_decode seg hg⟩
+  rw [shr_4, and_15]; omega
+
 
 end J1939.Props.C03
